@@ -331,7 +331,7 @@ class RDFWriter(object):
             if k == "value":
                 # odML tuples have no RDF equivalent, export their text form "(a;b)",
                 # which is what a Property of an n-tuple dtype parses on import.
-                if prop.dtype and prop.dtype.endswith("-tuple"):
+                if prop.dtype and prop.dtype.lower().endswith("-tuple"):
                     curr_val = ["(%s)" % ";".join(val) for val in curr_val]
                 # generating nodes for Property values
                 self.save_odml_values(curr_node, curr_pred, curr_val)
